@@ -154,7 +154,7 @@ def emit_cenum(it):
     arms = "".join("            %d => %s::%s,\n" % (i, it.ident, vname(i)) for i in range(it.count))
     return f"""
 {flat_attr(it, True, it.tag)}
-#[derive(Clone, Copy)]
+#[derive(Clone, Copy, PartialEq, PartialOrd)]
 pub enum {it.ident} {{ {", ".join(vs)} }}
 impl Node for {it.ident} {{
     fn desc() -> Desc {{ Desc::CEnum {{ tag: {TAG_SIZE[it.tag]}, count: {it.count}, default: {it.dflt} }} }}
@@ -205,7 +205,7 @@ def emit_sstruct(it):
         ctor = "%s { %s }" % (it.ident, ", ".join("%s: <%s as SizedNode>::from_value(&f[%d])" % (fname(i), f.rust(), i) for i, f in enumerate(fs)))
     return f"""
 {flat_attr(it, True)}
-#[derive(Clone)]
+#[derive(Clone, PartialEq, PartialOrd)]
 {struct_decl(it, True)}
 impl Node for {it.ident} {{
     fn desc() -> Desc {{ Desc::Struct {{ fields: vec![{descs}], sized: true }} }}
@@ -260,7 +260,7 @@ def emit_senum(it):
         from_arms += "            %d => %s,\n" % (i, ctor)
     return f"""
 {flat_attr(it, True, it.tag)}
-#[derive(Clone)]
+#[derive(Clone, PartialEq, PartialOrd)]
 pub enum {it.ident} {{ {", ".join(vs)} }}
 impl Node for {it.ident} {{
     fn desc() -> Desc {{ Desc::Enum {{ tag: {TAG_SIZE[it.tag]}, variants: vec![{vdesc}], sized: true, default: {("Some(%d)" % it.dflt) if it.dflt is not None else "None"} }} }}
